@@ -259,13 +259,22 @@ func exprSequences(maxLen int) [][]string {
 	return out
 }
 
+var c08Compound = [][]string{
+	{".config,/k"}, {"/k,.config"}, {".config,.name"}, {"goos,.config,/k"}, {".fullname,goos"}, {".config,/gomaxprocs", "pkg"},
+	{"pkg", ".config,.name,/k"}, {".config,.fullname"}, {".fullname,.config"}, {".config,.file,/k"},
+}
+
 func c08Space(c *mc.Check, depth int, maxExprs int) {
-	f := c.Family("streams", fmt.Sprintf("for every ordered sequence of ≤%d distinct projection expressions from %v parsed by one parser (+ its residue): explicit-state BFS over streams of results from a %d-result alphabet (growing file keys, an internal key, colliding value pairs ab|c vs a|bc, sub-name keys in different orders, -N); on every transition: key equality ⇔ reference tuple equality against every earlier key, Key.Get = extracted value for every flattened field, .config contains no specific key, re-projection of every earlier result gives the identical key, losslessness of projections + residue; state key = heap dump of the parser and all projections", maxExprs, c08Exprs, len(c08Results)), c08Replay)
+	f := c.Family("streams", fmt.Sprintf("for every ordered sequence of ≤%d distinct projection expressions from %v, and the compound expressions %v, parsed by one parser (+ its residue): explicit-state BFS over streams of results from a %d-result alphabet (growing file keys, an internal key, colliding value pairs ab|c vs a|bc, sub-name keys in different orders, -N); on every transition: key equality ⇔ reference tuple equality against every earlier key, Key.Get = extracted value for every flattened field, .config contains no specific key, re-projection of every earlier result gives the identical key, losslessness of projections + residue; state key = heap dump of the parser and all projections", maxExprs, c08Exprs, c08Compound, len(c08Results)), c08Replay)
 	if c.Replaying() {
 		return
 	}
 	f.Bounds["max_depth"] = depth
 	seqs := exprSequences(maxExprs)
+	// Projections of several fields in ONE expression, in particular a group in front of a named field: the
+	// flattened field order then differs from the order in which the fields were created (the named field exists
+	// from parse time, the group's keys from their first observation), and keys are shorter than the field set.
+	seqs = append(seqs, c08Compound...)
 	f.Bounds["expression_sequences"] = len(seqs)
 	canons := make([]*mc.Canon, mc.Workers())
 	for i := range canons {
